@@ -64,6 +64,7 @@ static std::string run(const std::vector<std::string>& t)
   const std::string& op = t[1];
   try {
     if (op == "assign") { std::uintmax_t x = std::stoull(t[2], nullptr, 16); return to_hex(B(x)); }
+    if (op == "signed") { long long x = std::stoll(t[2]); if (t.size() > 3 && t[3] == "int") return to_hex(B(int(x))); return to_hex(B(x)); }
     if (op == "max") return to_hex(std::numeric_limits<B>::max());
     if (op == "min") return to_hex(std::numeric_limits<B>::min());
     if (op == "digits") return std::to_string(std::numeric_limits<B>::digits);
